@@ -51,7 +51,7 @@ func init() {
 		ID:    "C18",
 		Level: "model_checking",
 		Rule: "E2+E3: for every section (base in {0,5,2^40}, n in 0..4, thorough 0..7) a breadth-first search over the cursor states reachable inside the window [0, n+6] (observed through Seek(0, SeekCurrent)); from EVERY state EVERY operation of the alphabet {Write(len 0..6), WriteAt(len 0..6, off in [-1,n+1]), Seek(offset in [-7,n+2], whence in {-1,0,1,2,3})} × EVERY answer of the scripted underlying WriterAt {everything; k<len bytes with an error; k<len bytes without an error, k in {0,1,2}} is executed on a real SectionWriter positioned there by real calls. " +
-			"Independently every operation sequence of depth ≤3 (thorough ≤4) over a reduced alphabet runs on one object without any state merging (guards against hidden state) - alone and once more with a second SectionWriter over another underlying writer used between the steps (objects must not share state), once more WITHOUT reading the cursor back between the steps (observing it must not be what keeps the writer correct), once more over a SectionWriter stacked on the scripted writer and (fault-free sequences of ≤2 operations) over an *os.File whose content is read back -, and AtToWriter(w, off in {0,5}) runs every sequence of ≤3 Writes × answers. Oracle: the statement's cursor model — compared are return values (count, error class: nil / ErrShortWrite / the underlying error / some error for rejected Seeks), the exact list of non-empty (offset, bytes) calls the underlying writer received, containment in [base, base+n), the cursor afterwards and Size(). Non-trivial: transitions in which bytes reach the underlying writer or the cursor moves.",
+			"Independently every operation sequence of depth ≤3 (thorough ≤4) over a reduced alphabet runs on one object without any state merging (guards against hidden state) - alone and once more with a second SectionWriter over another underlying writer used between the steps (objects must not share state), once more WITHOUT reading the cursor back between the steps (observing it must not be what keeps the writer correct), once more over a SectionWriter stacked on the scripted writer and (fault-free sequences of ≤2 operations) over an *os.File whose content is read back -, and AtToWriter(w, off in {0,5}) runs every sequence of ≤3 Writes × answers. Big geometry: sections of length n in {0, 4, 2^31-1, 2^31, 2^31+1, 2^32, 2^32+3, 2^62} × base in {0,5,2^40} from every cursor in {0, 2^31-2, 2^32-2, n-3..n+2}: every Write(len 0..4) / WriteAt(len 0..4, off around n and around 2^31, 2^32) × answer, every Seek(off in [-3,3] ∪ {±n, n±1, 2^31, 2^32, 2^32+1} ∪ {the last positions of int64: MaxInt64-d relative to start / end / cursor, d in {0,1,4,5,6}}), each alone and followed blind by a Write or a relative Seek (a Seek whose target is a valid int64 relative to the section but whose absolute offset base+pos is not representable may be accepted or rejected - the statement leaves it open - and everything after it must follow the answer given). Long buffers: n in {2^16-1, 2^16, 2^16+1} × Write / WriteAt of 2^16-1, 2^16, 2^16+1, 2^17 bytes from cursors {0, 1, n-2^16, n-1, n} × answers {everything; k in {0, 1, 2^16-1, len-1} with / without an error} followed by a 1-byte Write. Oracle: the statement's cursor model — compared are return values (count, error class: nil / ErrShortWrite / the underlying error / some error for rejected Seeks), the exact list of non-empty (offset, bytes) calls the underlying writer received, containment in [base, base+n), the cursor afterwards and Size(). Non-trivial: transitions in which bytes reach the underlying writer or the cursor moves.",
 		Assumptions: []string{
 			"cursors beyond the window n+6 are executed once (as successors) but not expanded",
 			"zero-length writes: whether the underlying writer is called at all is not fixed by the statement, so empty calls are ignored in the comparison and only the benign answer is scripted for them",
@@ -94,13 +94,36 @@ func (u *c18Under) WriteAt(p []byte, off int64) (int, error) {
 		}
 	}
 	if k > 0 {
-		u.calls = append(u.calls, c18Call{off, string(p[:k])})
+		u.calls = append(u.calls, c18Call{off, c18Data(p[:k])})
 	}
 	// the attempted range must lie inside the section even if only a part is accepted
 	if len(p) > 0 {
 		u.calls = append(u.calls, c18Call{-(off + 1), fmt.Sprint("attempt:", len(p))})
 	}
 	return k, err
+}
+
+// c18Data records the bytes of a call: verbatim when short, as length and FNV-1a
+// hash of the content when long (so that replay files stay small).
+func c18Data(p []byte) string {
+	if len(p) <= 32 {
+		return string(p)
+	}
+	h := uint64(14695981039346656037)
+	for _, b := range p {
+		h = (h ^ uint64(b)) * 1099511628211
+	}
+	return fmt.Sprintf("len=%d,fnv=%016x", len(p), h)
+}
+
+// c18DataLen is the number of bytes a recorded call stands for.
+func c18DataLen(d string) int64 {
+	var l int64
+	var h uint64
+	if n, _ := fmt.Sscanf(d, "len=%d,fnv=%x", &l, &h); n == 2 && l > 32 {
+		return l
+	}
+	return int64(len(d))
 }
 
 // ---- model
@@ -140,7 +163,7 @@ func (m *c18Model) under(p []byte, off int64, a c18Ans) (int, bool) {
 		fail = a.Err
 	}
 	if k > 0 {
-		m.calls = append(m.calls, c18Call{off, string(p[:k])})
+		m.calls = append(m.calls, c18Call{off, c18Data(p[:k])})
 	}
 	if len(p) > 0 {
 		m.calls = append(m.calls, c18Call{-(off + 1), fmt.Sprint("attempt:", len(p))})
@@ -203,6 +226,27 @@ func (m *c18Model) step(op c18Op, salt int) string {
 	return "?"
 }
 
+// c18Unrepresentable: the Seek target is a valid int64 position relative to the
+// section, but base+position overflows int64.
+func c18Unrepresentable(m *c18Model, op c18Op) bool {
+	var a int64
+	switch op.Whence {
+	case io.SeekStart:
+		a = 0
+	case io.SeekCurrent:
+		a = m.cur
+	case io.SeekEnd:
+		a = m.n
+	default:
+		return false
+	}
+	pos := a + op.Off
+	if (op.Off > 0 && pos < a) || (op.Off < 0 && pos > a) || pos < 0 {
+		return false // not representable even relative to the section / before the start: must be rejected
+	}
+	return m.base+pos < 0
+}
+
 // c18Exec runs one case on the real code and on the model and returns both
 // transcripts.
 func c18Exec(cs c18Case) (got, want string, moved bool) {
@@ -257,6 +301,8 @@ func c18Exec(cs c18Case) (got, want string, moved bool) {
 			by.WriteAt([]byte("z"), int64(i%7))
 		}
 		u.ans, u.armed = op.Ans, true
+		lenient := op.Op == "seek" && c18Unrepresentable(m, op)
+		saved := m.cur
 		wv := m.step(op, i)
 		var gv string
 		switch op.Op {
@@ -270,6 +316,13 @@ func c18Exec(cs c18Case) (got, want string, moved bool) {
 			pos, err := sw.Seek(op.Off, op.Whence)
 			if err != nil {
 				gv = "rejected" // the position returned with an error is unspecified
+				if lenient {
+					// The target lies inside int64 relative to the section but its absolute offset
+					// base+pos does not: the statement does not say whether such a Seek succeeds.
+					// Both answers are accepted; everything AFTER it must follow the answer given
+					// (rejected: cursor unchanged; accepted: cursor = pos, writes refused there).
+					wv, m.cur = "rejected", saved
+				}
 			} else {
 				gv = fmt.Sprintf("%d,nil", pos)
 			}
@@ -321,7 +374,7 @@ func c18Exec(cs c18Case) (got, want string, moved bool) {
 	}
 	// containment, stated separately so that a model bug cannot hide it
 	for _, c := range u.calls {
-		off, l := c.Off, int64(len(c.Data))
+		off, l := c.Off, c18DataLen(c.Data)
 		if off < 0 { // attempt record
 			off = -off - 1
 			fmt.Sscanf(c.Data, "attempt:%d", &l)
@@ -519,6 +572,7 @@ func c18Run(c *mc.Ctx) {
 			c.ForceSample(c18Case{Kind: "section", Base: cf.base, N: cf.n, Ops: []c18Op{red[2], red[len(red)-2], red[4]}})
 		}
 	})
+	c18Big(c)
 	// AtToWriter
 	for _, off := range []int64{0, 5} {
 		var ops []c18Op
@@ -552,6 +606,126 @@ func c18Run(c *mc.Ctx) {
 		c.Count(seqs, snt)
 	}
 	c.Add("traces_validated_against_impl", c.Int("transitions")+c.Int("unmerged_sequences")+c.Int("attowriter_sequences"))
+}
+
+// c18Big: sections whose length does not fit 31/32 bits (cursor arithmetic must be
+// 64-bit throughout) and buffers longer than 2^16 bytes (counts must not be
+// narrowed), from cursors around the section end.
+func c18Big(c *mc.Ctx) {
+	type cfg struct{ base, n int64 }
+	var cfgs []cfg
+	for _, b := range []int64{0, 5, 1 << 40} {
+		for _, n := range []int64{0, 4, 1<<31 - 1, 1 << 31, 1<<31 + 1, 1 << 32, 1<<32 + 3, 1 << 62} {
+			cfgs = append(cfgs, cfg{b, n})
+		}
+	}
+	c.Par(len(cfgs), func(ci int) {
+		cf := cfgs[ci]
+		n := cf.n
+		var ops []c18Op
+		for l := 0; l <= 4; l++ {
+			for _, a := range c18Answers(l) {
+				ops = append(ops, c18Op{Op: "write", Len: l, Ans: a})
+				for off := n - 3; off <= n+1; off++ {
+					ops = append(ops, c18Op{Op: "writeat", Len: l, Off: off, Ans: a})
+				}
+				for _, off := range []int64{0, 1<<31 - 1, 1 << 31, 1<<32 - 1, 1 << 32} {
+					if off < n-3 {
+						ops = append(ops, c18Op{Op: "writeat", Len: l, Off: off, Ans: a})
+					}
+				}
+			}
+		}
+		for _, wh := range []int{0, 1, 2} {
+			for off := int64(-3); off <= 3; off++ {
+				ops = append(ops, c18Op{Op: "seek", Off: off, Whence: wh, Ans: c18Ans{Full: true}})
+			}
+		}
+		for _, off := range []int64{n - 1, n, n + 1, -n, -n - 1, 1 << 31, 1 << 32, 1<<32 + 1} {
+			ops = append(ops, c18Op{Op: "seek", Off: off, Whence: 0, Ans: c18Ans{Full: true}},
+				c18Op{Op: "seek", Off: off, Whence: 2, Ans: c18Ans{Full: true}})
+		}
+		// targets at the very end of int64: relative to the section they are ordinary positions
+		// (far beyond the end), but for base > 0 their absolute offset is not representable
+		const maxI = int64(^uint64(0) >> 1)
+		for _, d := range []int64{0, 1, 4, 5, 6} {
+			ops = append(ops, c18Op{Op: "seek", Off: maxI - d, Whence: 0, Ans: c18Ans{Full: true}},
+				c18Op{Op: "seek", Off: maxI - n - d, Whence: 2, Ans: c18Ans{Full: true}})
+		}
+		nbase := len(ops)
+		var trans, nt int64
+		seenCur := map[int64]bool{}
+		for _, cur := range []int64{0, 1<<31 - 2, 1<<32 - 2, n - 3, n - 2, n - 1, n, n + 1, n + 2} {
+			if cur > n+2 || cur < 0 || seenCur[cur] {
+				continue
+			}
+			seenCur[cur] = true
+			ops = ops[:nbase]
+			for _, d := range []int64{0, 1, 4, 5, 6} {
+				ops = append(ops, c18Op{Op: "seek", Off: maxI - cur - d, Whence: 1, Ans: c18Ans{Full: true}})
+			}
+			for oi, op := range ops {
+				cs := c18Case{Kind: "section", Base: cf.base, N: n, Cursor: cur, Ops: []c18Op{op}}
+				got, want, moved := c18Exec(cs)
+				trans++
+				if moved {
+					nt++
+				}
+				if got != want {
+					c.Fail(3<<50|int64(ci)<<40|(cur&0xfff)<<20|int64(oi), "section", "section/big-geometry", cs, got, want)
+				}
+				// two steps without observing the cursor in between
+				for _, op2 := range []c18Op{{Op: "write", Len: 2, Ans: c18Ans{Full: true}}, {Op: "seek", Off: -1, Whence: 1, Ans: c18Ans{Full: true}}} {
+					cs2 := c18Case{Kind: "section", Base: cf.base, N: n, Cursor: cur, Blind: true, Ops: []c18Op{op, op2}}
+					g2, w2, _ := c18Exec(cs2)
+					trans++
+					if g2 != w2 {
+						c.Fail(3<<50|1<<49|int64(ci)<<40|(cur&0xfff)<<20|int64(oi), "section", "section/big-geometry", cs2, g2, w2)
+					}
+				}
+			}
+		}
+		c.Add("big_geometry_transitions", trans)
+		c.Count(trans, nt)
+	})
+	// long buffers
+	var lcfg []cfg
+	for _, b := range []int64{0, 5} {
+		for _, n := range []int64{1<<16 - 1, 1 << 16, 1<<16 + 1} {
+			lcfg = append(lcfg, cfg{b, n})
+		}
+	}
+	c.Par(len(lcfg), func(ci int) {
+		cf := lcfg[ci]
+		n := cf.n
+		var trans, nt int64
+		for _, cur := range []int64{0, 1, n - 1<<16, n - 1, n} {
+			if cur < 0 {
+				continue
+			}
+			for _, l := range []int{1<<16 - 1, 1 << 16, 1<<16 + 1, 1 << 17} {
+				answers := []c18Ans{{Full: true}}
+				for _, k := range []int{0, 1, 1<<16 - 1, l - 1} {
+					answers = append(answers, c18Ans{K: k, Err: true}, c18Ans{K: k})
+				}
+				for ai, a := range answers {
+					for _, op := range []c18Op{{Op: "write", Len: l, Ans: a}, {Op: "writeat", Len: l, Off: cur, Ans: a}} {
+						cs := c18Case{Kind: "section", Base: cf.base, N: n, Cursor: cur, Ops: []c18Op{op, {Op: "write", Len: 1, Ans: c18Ans{Full: true}}}}
+						got, want, moved := c18Exec(cs)
+						trans++
+						if moved {
+							nt++
+						}
+						if got != want {
+							c.Fail(4<<50|int64(ci)<<40|cur<<20|int64(l)<<4|int64(ai), "section", "section/long-buffer", cs, got, want)
+						}
+					}
+				}
+			}
+		}
+		c.Add("long_buffer_sequences", trans)
+		c.Count(trans, nt)
+	})
 }
 
 func c18Judge(kind string, cs c18Case) (got, want string) {
